@@ -4,7 +4,7 @@ import nat
 RULE = ("one case = one seed = history of 5-40 operations {add buffer, add real file (present / missing / empty / rewritten), delete, "
         "contains-buffer, contains-file, open+read+close, delete-all} over 6 distinct lower-case names ('plain': presence, repeated-name code, "
         "exact bytes, delete-absent failure all asserted) or over 8 names in 3 alias classes differing only in case or path separator ('alias': "
-        "only documented return codes, read-your-own-add on a previously empty alias class, no crash); non-trivial = every history; distinct = "
+        "only documented return codes, read-your-own-add on a previously empty alias class, no crash), or over 8 buffer paths with directories of which several share a base name ('dirs': exact-path map semantics incl. a full presence sweep after every operation; deletes only of exactly-present paths or of paths whose base name is present nowhere); non-trivial = every history; distinct = "
         "hash of the operation sequence")
 ASSUME = [
     "real files live in a scratch directory created by the driver; names not present in the VFS do not exist relative to the working directory",
@@ -16,5 +16,6 @@ ASSUME = [
 def run(tier):
     n = 30000 if tier == "quick" else 3000000
     plan = [dict(variant="plain", runs=n, label="plain", args=["--mode", "plain"], timeout=300 if tier == "quick" else 3400),
-            dict(variant="plain", runs=n, label="alias", args=["--mode", "alias"], timeout=300 if tier == "quick" else 3400)]
+            dict(variant="plain", runs=n, label="alias", args=["--mode", "alias"], timeout=300 if tier == "quick" else 3400),
+            dict(variant="plain", runs=n, label="dirs", args=["--mode", "dirs"], timeout=300 if tier == "quick" else 3400)]
     return nat.run_native("C39", tier, "c39.cc", plan, "exploration", RULE, ASSUME, nops=40, nmodel=0, use_corpus=False)
